@@ -610,7 +610,8 @@ func (s *Silences) Maintenance(interval time.Duration, snapf string, stopc <-cha
 			return size, err
 		}
 		if size, err = s.Snapshot(f); err != nil {
-			f.Close()
+			// Do not replace the last good snapshot with a partial one.
+			f.abort()
 			return size, err
 		}
 		return size, f.Close()
@@ -1471,6 +1472,12 @@ func (f *replaceFile) Close() error {
 		return err
 	}
 	return os.Rename(f.Name(), f.filename)
+}
+
+// abort closes and removes the temporary file, leaving filename untouched.
+func (f *replaceFile) abort() {
+	f.File.Close()
+	os.Remove(f.Name())
 }
 
 // openReplace opens a new temporary file that is moved to filename on closing.
